@@ -11,7 +11,9 @@ Definition known_c16 : list (N * string * rule) :=
    (1%N, "CFG-NMEAv0", RUnreachable); (1%N, "CFG-NMEAvX", RUnreachable);
    (0%N, "CFG-FIXSEED", RCollide); (1%N, "CFG-FIXSEED", RCollide); (0%N, "CFG-TP", RCollide); (1%N, "CFG-TP", RCollide);
    (0%N, "SEC-OSNMA", RGroupSize); (1%N, "ESF-MEAS", RGroupSize);
-   (0%N, "FOO-BAR", RBadType); (1%N, "CFG-NVS", RDupName)]%string.
+   (0%N, "FOO-BAR", RBadType); (1%N, "CFG-NVS", RDupName);
+   (0%N, "CFG-NAV5", RDupName); (1%N, "CFG-NAV5", RDupName); (0%N, "CFG-SMGR", RDupName); (1%N, "CFG-SMGR", RDupName);
+   (0%N, "CFG-ESFWT", RDupName); (1%N, "CFG-ESFWT", RDupName)]%string.
 
 Definition failure_eqb (a b : N * string * rule) : bool :=
   let '(m1, n1, r1) := a in let '(m2, n2, r2) := b in (m1 =? m2)%N && String.eqb n1 n2 && rule_eqb r1 r2.
